@@ -2,6 +2,12 @@ package main
 
 func init() {
 	addVariants(
+		variant{Name: "c14-reader-close-decides-outside-lock(seed c14a)", Props: []string{"C14"}, Expect: []string{"C14.close-atomic|(*db.DataReader).Close|close#0|under-DB.l", "C14.close-atomic|(*db.DataReader).Close|close#0|same-critical-section"},
+			Edits: []edit{{"db/db.go", "\tr.db.l.Lock()\n\tdefer r.db.l.Unlock()\n\tr.db.refCount--\n\tif r.db.destroyable && r.db.refCount == 0 {\n", "\tr.db.l.Lock()\n\tr.db.refCount--\n\tlast := r.db.refCount == 0\n\tr.db.l.Unlock()\n\tif last && r.db.isDestroyed() {\n"}}},
+		variant{Name: "c14-reader-close-relocks", Props: []string{"C14"}, Expect: []string{"C14.close-atomic|(*db.DataReader).Close|close#0|same-critical-section"},
+			Edits: []edit{{"db/db.go", "\tr.db.l.Lock()\n\tdefer r.db.l.Unlock()\n\tr.db.refCount--\n\tif r.db.destroyable && r.db.refCount == 0 {\n", "\tr.db.l.Lock()\n\tr.db.refCount--\n\tlast := r.db.refCount == 0\n\tr.db.l.Unlock()\n\tr.db.l.Lock()\n\tdefer r.db.l.Unlock()\n\tif last && r.db.destroyable {\n"}}},
+		variant{Name: "c14-stats-key-memoised-in-global-map(seed c14b)", Props: []string{"C14"}, Expect: []string{"C14.globals|dnsserver.typeToStats|dnsserver.typeToStatsKey|map-update"},
+			Edits: []edit{{"dnsserver/handler.go", "\treturn fmt.Sprintf(\"%s.TYPE%d\", TypeToStatsPrefix, qtype)\n", "\tt := fmt.Sprintf(\"%s.TYPE%d\", TypeToStatsPrefix, qtype)\n\ttypeToStats[qtype] = t\n\treturn t\n"}}},
 		variant{Name: "c14-close-sends-under-lock", Props: []string{"C14"}, Expect: []string{"C14.block|(*dnsserver.FBDNSDB).Close|send"},
 			Edits: []edit{{"dnsserver/db.go", "\tglog.Infof(\"Closing DB\")\n\tclose(h.done)\n", "\tglog.Infof(\"Closing DB\")\n\th.done <- struct{}{}\n\tclose(h.done)\n"}}},
 		variant{Name: "c14-ctx-not-reset", Props: []string{"C14"}, Expect: []string{"C14.ctxpool|(*db.cdbdriver).FreeContext|put-after-reset"},
